@@ -23,4 +23,7 @@ var props = map[string]propCfg{
 			Quick:    tierCfg{Cases: 3000, Shards: 2, Timeout: 5 * min, ShrinkTime: 20 * sec},
 			Thorough: tierCfg{Cases: 320000, Shards: 16, Timeout: 60 * min, ShrinkTime: 60 * sec}},
 	}},
+	"C01": one(part{Pkg: "./props/static", Test: "TestC01",
+		Quick:    tierCfg{Cases: 96, Shards: 6, Timeout: 10 * min, ShrinkTime: 30 * sec},
+		Thorough: tierCfg{Cases: 1500, Shards: 14, Timeout: 60 * min, ShrinkTime: 5 * min}}),
 }
